@@ -170,6 +170,30 @@ CHECKS["C05"] = dict(
     note=NOTE_COMMON + "Outside: Arc.get_start_t/t_at_point (arc.point(t) replaced by point_at_t + end points on the ellipse), the exact half-turn boundary, IEEE rounding "
          "(the acos clamp is unreachable in exact reals). Some branch-feasibility queries time out: those paths are explored as unconfirmed and listed.")
 
+CHECKS["C15"] = dict(
+    text="Decidable parts of the length/point law on the real code: Line/Close length = Euclidean distance for all end points and unchanged by rotation (symbolic angle), "
+         "translation, reflection, reversal, scaled by |s| under uniform scaling; Shape._calc_lengths/length/point on paths of <=5 segments with moves and zero-length "
+         "segments at every position and segment lengths as arbitrary non-negative solver variables: total = sum without moves, point(0)/point(1), and for ALL t the "
+         "cumulative-interval law (right segment, right local fraction, no division by zero); Arc.length circle shortcut = r|sweep| for all centres/radii/sweeps; "
+         "QuadraticBezier.length on the degenerate (collinear, doubling back) branch against the closed form; path and shape lengths are isometry-invariant given "
+         "invariant segment lengths.",
+    ref="DESIGN.md 4/C15",
+    note=NOTE_COMMON + "NOT covered (not applicable to this technique, see DESIGN.md): 'equals the true arc length to within the requested error' for non-degenerate "
+         "quadratics (logarithm closed form), cubics (adaptive subdivision whose depth depends on values) and elliptical arcs (elliptic integral): no SMT theory expresses the "
+         "integral. This check therefore claims the composition law and the closed-form cases only.")
+
+CHECKS["C19"] = dict(
+    text="Real Arc.as_cubic_curves/as_quad_curves and Path.approximate_arcs_with_cubics/_with_quads. Kernel: on the unit circle, one slice of symbolic angle phi in (0, 36deg] "
+         "(either direction), the real curve's point at s = 1/4, 1/2, 3/4 is within 1e-3 (cubic) / 1e-2 (quadratic) of the circle, within a quarter of that for phi <= 18deg and a "
+         "sixteenth for phi <= 9deg (nlsat on the denominator-cleared rational parametrisation of the angle tokens). Equivariance: for arbitrary centre, radii (ratio <= 100), "
+         "rotation, start parameter, sweep in +-[1e-3, 7] and n = 1..3 slices (explicit and default count) every control point is proved to be the affine image of the kernel's, "
+         "so every curve is an affine image of a kernel curve. Structure: n curves, first starts at the stored start, last ends at the stored end, consecutive curves join, "
+         "interior joints on the ellipse, default count = ceil(|sweep|/30deg) up to 14 slices, zero sweep gives no curves; in a path the arc is replaced in place, the other "
+         "segments keep their values and the path stays connected.",
+    ref="DESIGN.md 4/C19",
+    note=NOTE_COMMON + "Arc.get_start_t is replaced by its contract in the symbolic run (the replay runs the real one). Outside: the error bound for every curve parameter s "
+         "(decided at s = 1/4, 1/2, 3/4; thorough tier attempts symbolic s), control-point formulas for more than 4 slices, the Lipschitz step from the circle to the ellipse (paper).")
+
 NOT_APPLICABLE = {
 }
 
